@@ -834,6 +834,14 @@ fn run_tb_case(case: &str) -> (String, String) {
         ign = parts[0][1..].iter().filter_map(|s| sig_of(s)).collect();
         parts.remove(0);
     }
+    // `W` leaves a child running when a trap interrupts the wait: it must be the last statement that
+    // creates a child, and SIGCHLD must not be named in such a case
+    if let Some(i) = parts.iter().position(|p| p.first() == Some(&"W")) {
+        let child = |p: &Vec<&str>| matches!(p.first(), Some(&"sub") | Some(&"cs") | Some(&"bg") | Some(&"W"));
+        if parts[i + 1..].iter().any(child) || parts.iter().flatten().any(|w| *w == "CHLD" || *w == "102") {
+            return bad();
+        }
+    }
     let mut script = String::new();
     for p in &parts {
         let Some(t) = tb_stmt(p) else { return bad() };
@@ -871,41 +879,16 @@ fn run_tb_case(case: &str) -> (String, String) {
     let out = o.stdout_str();
     let lines: Vec<String> = out.lines().map(tb_canon).collect();
     let obs = format!("out={} end={} exit={}", lines.join(","), end, if end == "exit" { o.exit_status } else { -1 });
-    // Rust-side oracle: (1) what `trap -p COND` prints right after a successful `trap ACTION COND` is
-    // that action (unless the signal was ignored on entry); (2) a command EXIT trap of the main shell
-    // runs exactly once when the shell leaves by itself, and never when a signal ended it.
+    // Rust-side oracle: the run must end (by itself or by a signal); a line that is neither a probe
+    // line nor a `trap --` line must not appear; and a shell ended by a signal prints nothing more.
     let mut oracle = "ok".to_string();
     if end == "stuck" {
         oracle = "FAIL:stuck".into();
     }
-    let tops: Vec<&Vec<&str>> = parts.iter().collect();
-    let mut exit_cmd: Option<String> = None;
-    for p in &tops {
-        if let ["T", a, ops @ ..] = p.as_slice() {
-            if ops.iter().all(|o| any_sig_of(o).is_some() || *o == "EXIT" || *o == "0")
-                && !ops.iter().any(|o| *o == "KILL" || *o == "STOP")
-                && ops.iter().any(|o| *o == "EXIT" || *o == "0")
-            {
-                exit_cmd = a.strip_prefix('c').map(|n| n.to_string());
-            }
-        } else if p.first() == Some(&"TN") {
-            exit_cmd = None; // too many forms: not judged
-            break;
-        }
-    }
-    if let Some(n) = exit_cmd {
-        let hex = format!(":{}", enc_str(&n));
-        let count = lines.iter().filter(|l| l.ends_with(&hex) && !l.starts_with("T:")).count();
-        let probes_same = parts.iter().flatten().any(|w| *w == n) && parts.iter().any(|p| p.first() == Some(&"R") && p.get(1) == Some(&n.as_str()));
-        if !probes_same {
-            if end == "exit" && count != 1 && !lines.is_empty() {
-                // (an EXIT trap reset or replaced later is not tracked: only flag duplicates)
-                if count > 1 {
-                    oracle = format!("FAIL:exit-trap-ran-{count}-times");
-                }
-            } else if end != "exit" && count > 0 {
-                oracle = "FAIL:exit-trap-ran-after-fatal-signal".into();
-            }
+    for l in &lines {
+        let ok = l == "-" || l.starts_with("T:") || l.split_once(':').is_some_and(|(a, b)| a.parse::<i32>().is_ok() && yverif::proto::dec_str(b).is_some());
+        if !ok {
+            oracle = format!("FAIL:unexpected-output:{}", enc_str(l));
         }
     }
     (obs, oracle)
@@ -1285,7 +1268,8 @@ fn main() {
             for y in wacts {
                 let ta = if x.is_empty() { String::new() } else { format!("T {x} {a}; ") };
                 let tb_ = if y.is_empty() { String::new() } else { format!("T {y} {b}; ") };
-                emit_tb(format!("tb T c9 USR2; T c8 EXIT; {ta}{tb_}W {a} {b}; R 1; W {b}; R 2; X 5"), &mut out);
+                emit_tb(format!("tb T c9 USR2; T c8 EXIT; {ta}{tb_}W {a} {b}; R 1; R 2; X 5"), &mut out);
+                emit_tb(format!("tb T c9 USR2; {ta}{tb_}sub R 4; W {b} {a} {b}; R 1; K {a}; R 2"), &mut out);
             }
         }
     }
